@@ -289,6 +289,15 @@ fn check_case_inner<'a>(case: &'a Case, arena: &Arena<'a>) -> CaseResult {
             hcobs_ref::decode(&stuffed, LIMIT_FIRST, LIMIT_LATER).map_err(|e| Fail::new("sink:hcobs", format!("HCOBS encoder sink produced a malformed stream: {e:?}")))?
         }
     };
+    // Emitting is repeatable: a second emission of the same wrapper gives the same bytes.
+    {
+        let mut again = OwningIovec::new();
+        wrapper.to_rough_tlv(&mut again);
+        let again = again.flatten().map_err(|_| Fail::new("sink:pending", "iovec sink has a placeholder pending"))?;
+        if again != bytes {
+            return Err(Fail::new("layout:second-emission", super::codec::mismatch("a second to_rough_tlv of the same wrapper differs from the first", &again, &bytes)));
+        }
+    }
     if bytes != want {
         return Err(Fail::new("layout", super::codec::mismatch("emitted bytes differ from the Roughtime layout", &bytes, &want)));
     }
